@@ -61,13 +61,21 @@ def check(c):
                 L = np.array([_left(cores, p) for p in pre])
                 s = np.linalg.svd(L, compute_uv=False)
                 ok = ok and len(s) >= rho and L.shape[0] >= rho and s[rho - 1] >= 1e-4 * s[0] and s[rho - 1] > (1e-6 if not long_ else 1e-200) and np.linalg.matrix_rank(L) == min(L.shape[1], rho)
-                ok = ok and len({tuple(p) for p in pre}) == len(pre)
+                if len({tuple(p) for p in pre}) != len(pre):
+                    # with every mode size >= m the Latin-hypercube prefixes are distinct by construction: a repeated prefix is a defect of the
+                    # sampler, not an ill-conditioned input to be excused
+                    if min(shape) >= m:
+                        res.fail('samples.distinct', dict(c, gseeds=[gs], mode=k), 'mode %d: repeated prefix among the %d sampled prefixes' % (k, len(pre)), tags + ['layout'])
+                    ok = False
             if k < d - 1:
                 suf = blk[:len2, k + 1:]
                 R = np.array([_right(cores, q, k + 1) for q in suf])
                 s = np.linalg.svd(R, compute_uv=False)
                 ok = ok and R.shape[0] >= rho and len(s) >= rho and s[rho - 1] >= 1e-4 * s[0] and s[rho - 1] > (1e-6 if not long_ else 1e-200)
-                ok = ok and len({tuple(q) for q in suf}) == len(suf)
+                if len({tuple(q) for q in suf}) != len(suf):
+                    if min(shape) >= m:
+                        res.fail('samples.distinct', dict(c, gseeds=[gs], mode=k), 'mode %d: repeated suffix among the %d sampled suffixes' % (k, len(suf)), tags + ['layout'])
+                    ok = False
         # true TT-ranks must be rho (otherwise the generating cores are not minimal)
         for k in range(1, d if not long_ else 1):
             sv = ref.unfold_sv(T, k)
@@ -108,7 +116,10 @@ def check(c):
             cap = c['caps'][-1]
             with warnings.catch_warnings():
                 warnings.simplefilter('ignore')
-                Z0 = teneva.svd_incomplete(I, y, idx, idx_many, e=1e-10, r=cap)
+                try:
+                    Z0 = teneva.svd_incomplete(I, y, idx, idx_many, e=1e-10, r=cap)
+                except Exception:
+                    continue            # already reported by the loop over caps
                 okf = True
                 for If, yf, xf, mf in ((I.astype(np.int32), y, idx, idx_many), (I, y, [int(x) for x in idx], [int(x) for x in idx_many]),
                                        (np.asfortranarray(I), np.array(y, copy=True), idx.astype(np.int32), idx_many.astype(np.int32)),
@@ -154,7 +165,7 @@ def strata(tier, seed):
                         continue
                 for sh in shapes:
                     for pat in ('gen', 'intA'):
-                        cs.append(dict(shape=sh, rho=rho, m=m, pat=pat, caps=[rho, rho + 1, 1e12] + ([max(1, rho - 1)] if rho > 1 else []),
+                        cs.append(dict(shape=sh, rho=rho, m=m, pat=pat, caps=[rho, float(rho), rho + 1, float(rho + 1), 1e12] + ([max(1, rho - 1)] if rho > 1 else []),
                                        gseeds=[0, 1, 2, 3, 4] if tier != 'quick' else [0, 1, 2], seed=seed))
     # a Generator object as seed; modes large enough that n_k * m exceeds 255; trains so long that a product of mode sizes
     # exceeds 2^63 (no dense tensor exists: the comparison runs through TT inner products)
